@@ -319,11 +319,18 @@ func LeafValue(r *rand.Rand, s *model.Schema, name string) interface{} {
 		}
 		return r.Int63() - (1 << 62)
 	case "Float":
-		if r.Intn(2) == 0 {
+		switch r.Intn(8) {
+		case 0:
+			// one significant digit, large or small: the shortest text has an exponent and no fraction ("3e+06")
+			return float32(float64(1+r.Intn(9)) * math.Pow(10, float64(r.Intn(50)-25)))
+		case 1, 2, 3:
 			return float32(r.NormFloat64() * 100)
 		}
 		return float64(float32(r.NormFloat64() * 1e6))
 	case "Float64":
+		if r.Intn(8) == 0 {
+			return float64(1+r.Intn(9)) * math.Pow(10, float64(r.Intn(80)-40))
+		}
 		if r.Intn(4) == 0 {
 			// single precision data widened to double precision: exactly a float32, but its shortest double text is long
 			return float64(float32(r.NormFloat64() * 10))
